@@ -16,6 +16,8 @@ REWRITES = [
   # the tower together with an override that already spells out one of its own two entries: both readings of the property agree
   ('tower_ovfloat', 'BeartypeConf(is_pep484_tower=True, hint_overrides=FrozenDict({float: Union[float, int]}))', [(r'\bfloat\b', 'Union[float, int]'), (r'\bcomplex\b', 'Union[complex, float, int]')]),
   ('tower_ovcomplex', 'BeartypeConf(is_pep484_tower=True, hint_overrides=FrozenDict({complex: Union[complex, float, int]}))', [(r'\bfloat\b', 'Union[float, int]'), (r'\bcomplex\b', 'Union[complex, float, int]')]),
+  # overriding a hint by itself rewrites nothing
+  ('ov_self', 'BeartypeConf(hint_overrides=FrozenDict({L0: L0, list[str]: list[str]}))', []),
   ('viol_type', 'BeartypeConf(violation_type=ValueError)', []),
   ('viol_door_warn', 'BeartypeConf(violation_door_type=UserWarning, violation_param_type=UserWarning)', []),
 ]
@@ -69,15 +71,27 @@ def _worker(task):
         capture.install()
         uni = M.Universe()
         for c in (cabc.Sized, cabc.Collection, cabc.Sequence, cabc.Mapping, cabc.Iterable, cabc.Set, tuple, type(None)): uni.const(c)
-        progs = []
+        progs = []; gen_exc = []
         for hs, cs in ((s, conf_src), (s2, 'BeartypeConf()')):
             capture.clear_beartype_caches(); capture.drain()
             hint = shapes.ev(hs); conf = shapes.ev(cs)
-            is_bearable(None, hint, conf=conf)
+            try: is_bearable(None, hint, conf=conf)
+            except Exception as e:
+                gen_exc.append((hs, cs, e)); progs.append(None); continue
+            gen_exc.append(None)
             caps = capture.drain()
             if not caps: progs.append(None); continue
             ex, x, r, outs = gencheck.run_tester(caps[-1].code, caps[-1].scope, uni, hs)
             progs.append((ex, outs, caps[-1].code))
+        if any(g is not None for g in gen_exc):
+            # the checker could not even be generated: equivalent only if generation fails the same way for the hand-rewritten hint
+            a, b = gen_exc
+            same = a is not None and b is not None and type(a[2]) is type(b[2])
+            which = a or b
+            detail = f'generating the checker for {which[0]} under {which[1]} raised {type(which[2]).__name__}: {str(which[2])[:160]}' + ('' if same else f'; for the other side: {"no exception" if (b if which is a else a) is None else type((b if which is a else a)[2]).__name__}')
+            rec['obligations'].append(dict(name='generator_raises', status='proved' if same else 'refuted', time=0, backend='runtime', where=detail, solver_output='the real generator raised',
+                                           replay=dict(kind='C18', reproduced=not same, detail=detail, gen=(which[0], which[1]))))
+            return rec
         x = z3.Const('x', M.Obj); r = z3.Int('r'); axioms = uni.axioms(); prover = discharge.Prover(axioms)
         def paths(p):
             if p is None: return [((), z3.BoolVal(True))]     # ignorable hint: constant-true checker
@@ -186,7 +200,11 @@ def main(tier, seed):
             rep.error(f'{tag}: {rec["error"]}'); continue
         for o in rec['obligations']:
             rp = o.get('replay'); script = None
-            if rp and rp.get('reproduced'):
+            if rp and rp.get('reproduced') and rp.get('gen'):
+                script = (f'from pyvc import shapes\nfrom beartype import FrozenDict, BeartypeConf\nfrom beartype.door import is_bearable\nshapes.NS["FrozenDict"] = FrozenDict\n'
+                          f'try: is_bearable(None, shapes.ev({rp["gen"][0]!r}), conf=shapes.ev({rp["gen"][1]!r})); print("no exception"); sys.exit(0)\n'
+                          'except Exception as e: print("REPRODUCED", type(e).__name__, e); sys.exit(1)\n')
+            elif rp and rp.get('reproduced'):
                 script = (f'from props.c18 import replay_c18\nok, d = replay_c18({rec["shape"]!r}, {rec["conf"]!r}, {rec["rewritten"]!r}, {rp["obj"]!r}, {rp["r"]!r})\n'
                           'print("REPRODUCED" if ok else "not reproduced", d)\nsys.exit(1 if ok else 0)\n')
             rep.add(f'{tag}.{o["name"]}', o['status'], time=o.get('time'), backend=o.get('backend'), where=o.get('where'), replay=rp,
